@@ -1395,3 +1395,79 @@ def mig_replay(prop, path):
         return 1
     print("replay: the oracle holds on this input now")
     return 0
+
+
+# ------------------------------------------------------------------------------------------ C14 at runtime level
+PREFIX_TWINS = [("h2_prefix", "h2_noprefix")]
+
+
+def _unprefix(text, prefix, names):
+    """undo the literal prefix on every known table name (longest first), also inside derived index / constraint names"""
+    for nm in sorted(names, key=len, reverse=True):
+        text = text.replace(prefix + nm, nm)
+    return text
+
+
+def c14_part(tier, seed):
+    """C14 for the runtime migrator: a history run with a table prefix must leave exactly the database of the same
+    history run without prefix, every table — the version table included — renamed to prefix + name and nothing
+    else changed (columns, indexes modulo the prefix inside derived names, version rows).  Reuses the K-mig runs."""
+    res = run_mig(tier, seed)
+    details = {"pairs": [], "compared": 0}
+    if "histories" not in res:
+        return {"ok": False, "details": {"error": (res.get("build_error") or res.get("coq_error") or "")[-1500:]}, "failing_input": None}
+    hist = {h["name"]: h for h in res["histories"]}
+    failing = None
+    for with_p, without_p in PREFIX_TWINS:
+        hp, hn = hist.get(with_p), hist.get(without_p)
+        if not hp or not hn or hp.get("error") or hn.get("error"):
+            details["pairs"].append({"pair": [with_p, without_p], "error": "history missing or failed: %s / %s" % (hp and hp.get("error"), hn and hn.get("error"))})
+            failing = failing or {"history": with_p, "options": None, "why": "K-mig did not run for the pair"}
+            continue
+        prefix = hp["out"]["prefix"]
+        runs_n = {r["name"]: r for r in hn["runs"]}
+        n_ok = 0
+        for rp in hp["runs"]:
+            tags = rp.get("tags") or {}
+            if tags.get("kind") not in ("base", "legacy") or rp.get("dry"):
+                continue
+            rn = runs_n.get(rp["name"])
+            if rn is None:
+                continue
+            details["compared"] += 1
+            cat_n = json.loads(rn["after"]["catalog"])
+            cat_p = json.loads(rp["after"]["catalog"])
+            tables_n = sorted(e[1] for e in cat_n if e[0] == "table")
+            tables_p = sorted(e[1] for e in cat_p if e[0] == "table")
+            problems = []
+            if not prefix:
+                problems.append("the prefixed twin has no prefix")
+            if tables_p != sorted(prefix + t for t in tables_n):
+                problems.append({"user_tables": tables_p, "expected": sorted(prefix + t for t in tables_n)})
+            # the version table: found by the harness under prefix + name, same layout and rows
+            if rp["vt"] != prefix + rn["vt"] or rp["after"]["vt_exists"] != rn["after"]["vt_exists"] or not rp["after"]["vt_exists"]:
+                problems.append({"version_table": {"expected_name": prefix + rn["vt"], "exists_under_that_name": rp["after"]["vt_exists"]}})
+            if rp["after"]["vt_has_id"] != rn["after"]["vt_has_id"] or rp["after"]["rows"] != rn["after"]["rows"]:
+                problems.append({"version_rows": rp["after"]["rows"], "expected": rn["after"]["rows"]})
+            # nothing else: every catalog entry equal once the prefix is removed from the known table names
+            names = tables_n + [rn["vt"]]
+            norm_p = sorted([[e[0]] + [_unprefix(x, prefix, names) if isinstance(x, str) else x for x in e[1:]] for e in cat_p])
+            if norm_p != sorted(cat_n):
+                problems.append({"catalog_differs_beyond_the_prefix": [e for e in norm_p if e not in cat_n][:3], "missing": [e for e in cat_n if e not in norm_p][:3]})
+            # the bookkeeping statements name prefix + table
+            for ip, inn in zip(rp["instances"], rn["instances"]):
+                sp = [_unprefix(e["sql"], prefix, names) for e in ip["log"]]
+                sn = [e["sql"] for e in inn["log"]]
+                if sp != sn or [e["ok"] for e in ip["log"]] != [e["ok"] for e in inn["log"]] or (ip["result"] or {}).get("kind") != (inn["result"] or {}).get("kind"):
+                    problems.append({"call_log_differs_beyond_the_prefix": [a for a, b in zip(sp, sn) if a != b][:2]})
+            if problems:
+                if failing is None:
+                    failing = {"history": with_p, "twin": without_p, "prefix": prefix, "run": rp["name"],
+                               "options": {"variant": rp["variant"], "macro_options": VARIANTS[rp["variant"]], "init": rp["init"]},
+                               "problems": problems, "history_files": history_files(os.path.join(CORPUS, with_p))}
+                details.setdefault("failures", []).append({"run": rp["name"], "variant": rp["variant"], "problems": problems[:2]})
+            else:
+                n_ok += 1
+        details["pairs"].append({"pair": [with_p, without_p], "prefix": prefix, "runs_equal_up_to_prefix": n_ok})
+    ok = failing is None and details["compared"] > 0
+    return {"ok": ok, "details": details, "failing_input": failing}
